@@ -26,6 +26,10 @@ type Resp struct {
 	ContentType string
 	Body        []byte
 	Err         error
+	// Marker, if not empty, is the function a goroutine started (and known to
+	// be running) before the request was sent, and kept alive until the answer
+	// was read, is in: a complete page for a valid GET mentions it.
+	Marker string
 }
 
 // Query encodes the three parameters; empty ones are left out half of the time
@@ -114,6 +118,17 @@ func RunClients(base string, clients, perClient int, seed uint64, deadline time.
 					return
 				}
 				q := GenReq(r)
+				if r.next()%2 == 0 {
+					ready, stop, done := make(chan struct{}), make(chan struct{}), make(chan struct{})
+					go markers[c%len(markers)](ready, stop, done)
+					<-ready
+					resp := Do(cl, base, q, r.next()%2 == 0)
+					close(stop)
+					<-done
+					resp.Marker = fmt.Sprintf("freshMarker%d", c%len(markers))
+					handle(resp)
+					continue
+				}
 				handle(Do(cl, base, q, r.next()%2 == 0))
 			}
 		}(c)
@@ -125,3 +140,37 @@ func RunClients(base string, clients, perClient int, seed uint64, deadline time.
 func (q Req) Describe() string {
 	return fmt.Sprintf("%s maxmem=%q augment=%q similarity=%q body=%v", q.Method, q.Maxmem, q.Augment, q.Similarity, q.InBody)
 }
+
+// ---- marker goroutines: born just before a request, alive until its answer ----
+
+func markerBody(ready, stop, done chan struct{}) {
+	close(ready)
+	<-stop
+	close(done)
+}
+
+//go:noinline
+func freshMarker0(ready, stop, done chan struct{}) { markerBody(ready, stop, done) }
+
+//go:noinline
+func freshMarker1(ready, stop, done chan struct{}) { markerBody(ready, stop, done) }
+
+//go:noinline
+func freshMarker2(ready, stop, done chan struct{}) { markerBody(ready, stop, done) }
+
+//go:noinline
+func freshMarker3(ready, stop, done chan struct{}) { markerBody(ready, stop, done) }
+
+//go:noinline
+func freshMarker4(ready, stop, done chan struct{}) { markerBody(ready, stop, done) }
+
+//go:noinline
+func freshMarker5(ready, stop, done chan struct{}) { markerBody(ready, stop, done) }
+
+//go:noinline
+func freshMarker6(ready, stop, done chan struct{}) { markerBody(ready, stop, done) }
+
+//go:noinline
+func freshMarker7(ready, stop, done chan struct{}) { markerBody(ready, stop, done) }
+
+var markers = []func(ready, stop, done chan struct{}){freshMarker0, freshMarker1, freshMarker2, freshMarker3, freshMarker4, freshMarker5, freshMarker6, freshMarker7}
